@@ -34,6 +34,23 @@ CLAIMED = {
              "26 signature/config templates, <= 5 positional and <= 2 keyword arguments.",
         design="3/C15",
         technique=TECH + "; hash pre-images kept structural, argument hashes as symbolic integer tokens"),
+    "C17": dict(
+        text="Task._calc_hash / PartialTask._calc_hash executed symbolically on two task objects that differ in one solver-chosen "
+             "dimension (name, namespace, source, version, include value/order, call-time override, definition option) with "
+             "symbolic strings and tokens; get_func_source on symbolic source lines (decorators, def/async def, indentation); and, "
+             "natively with real inspect and SHA, solver-chosen sequences of source edits to a module on disk (incl. wrapped "
+             "tasks and hash_includes helpers) and of PartialTask derivations.",
+        note="Stubs S2/S3 + structural type registry for the symbolic part; strings <= 2 chars; <= 2-3 edits / 3-4 partial operations.",
+        design="3/C17",
+        technique=TECH + "; one-dimension-differs pairs with symbolic fields; edit sequences as solver choice variables"),
+    "C18": dict(
+        text="The four expression classes' _calc_hash and __getstate__/__setstate__ executed symbolically on pairs of expressions "
+             "whose kind, name, argument count, option set and export set are solver variables and whose argument/option values "
+             "are symbolic tokens: equal hash => same call; state round trip preserves hash, arguments, options and resets "
+             "bookkeeping; plus real-pickle round trips.",
+        note="Stubs S2/S3, pickle_dumps/hash_bytes inside redun.expression replaced by an order-preserving structural image.",
+        design="3/C18",
+        technique=TECH + "; expression shapes as solver choice variables, symbolic value tokens"),
     "C19": dict(
         text="map_nested_value / iter_nested_value / iter_nested_value_children are run on every nested value whose node kinds "
              "(12 container/leaf kinds incl. namedtuple, set, dict keys, dataclass with non-init field, frozen dataclass, list "
